@@ -16,9 +16,9 @@ RULE = ('[bgp] rib = true; sequences of announce / withdraw / re-announce same /
         'a pool of IPv4 prefixes (incl. 0.0.0.0/0 and a /32), flowspec rules and VPNv4 routes with 3 attribute sets, interleaved with session '
         'drops (peer close, NOTIFICATION, hold expiry, stop/start) and re-establishment, the same prefix withdrawn and announced by one UPDATE, sessions used in both directions (the other direction must not move); exhaustive to length 4 over a reduced operation set, random to length 200; receive side by peer '
         'UPDATEs (reference encoder), send side through REST send/update; oracle: table == model, empty after a drop, and per message '
-        '(version delta > 0) iff (the model table of that family changed), never a decrease; distinct = distinct operation sequences')
+        '(version delta > 0) iff (the model table of that family changed), never a decrease, and never by more than the number of route-level changes of the message; REST look-ups of present prefixes (exact answer) and of absent ones (never shown as a route); drops also as a burst of 130 announcements in one segment followed by a stop or a close before the reactor has finished with it; distinct = distinct operation sequences')
 ASSUMPTIONS = ['radix stand-in: only exact-prefix lookups that hit the Adj-RIB-In dictionary are judged, longest-match results are not',
-               'the size of a version step is recorded, not judged (the statement fixes when it moves, not by how much)']
+               'the size of a version step is bounded by the number of route-level changes of the message (every step answers to a change); below that bound it is recorded, not judged']
 SHARD_TIMEOUT = {'quick': 400, 'thorough': 2400}
 PFX = ['192.0.2.0/24', '198.51.100.0/25', '0.0.0.0/0', '203.0.113.7/32', '10.0.0.0/8', '172.16.0.0/12']
 ATTRS = [{1: 0, 2: [[2, [65002]]], 3: '10.0.0.2'}, {1: 0, 2: [[2, [65002, 65003]]], 3: '10.0.0.2', 4: 50}, {1: 2, 2: [[2, [65002]]], 3: '10.0.0.9', 8: ['NO_EXPORT']}]
